@@ -66,6 +66,8 @@ type input struct {
 	IdleUs      int   `json:"idle_us,omitempty"` // pool idle timeout (microseconds)
 	Seed        int64 `json:"seed,omitempty"`
 	Pause       int   `json:"pause,omitempty"` // 0..3: how often goroutines yield / sleep
+	// race: outcome of the thorough-tier run under the race detector (race.go)
+	Race *raceResult `json:"race,omitempty"`
 }
 
 // ---- fixture: one block, its index-header, an always-loaded reader ---------
@@ -592,6 +594,8 @@ func run(raw json.RawMessage) (common.Case, error) {
 		return common.Case{}, fmt.Errorf("fixture: %w", err)
 	}
 	switch in.Kind {
+	case "race":
+		return runRace(in)
 	case "seq":
 		return runSeq(f, in)
 	case "conc":
@@ -657,8 +661,32 @@ func genConc(r *rand.Rand, tier string) input {
 	return in
 }
 
+func runRace(in input) (common.Case, error) {
+	c := common.Case{Class: "race-detector"}
+	rr := in.Race
+	if rr == nil {
+		return c, fmt.Errorf("race case without result")
+	}
+	if rr.Skipped != "" {
+		c.Class = "race-detector-skipped"
+	}
+	z := common.N(0)
+	c.Coq = common.App("CConc", common.N(uint64(rr.Races)), z, z, z, z, z, common.N(uint64(rr.Races)), z, z, z, z, z, z, z, "false")
+	c.Obs = rr
+	c.Nontrivial = rr.Skipped == "" && rr.Cases > 0
+	if rr.Races > 0 {
+		c.GoPred = fmt.Sprintf("the race detector reported %d data race(s) while %d cases ran: %s", rr.Races, rr.Cases, rr.Report)
+		c.Sig = "data-race"
+	}
+	return c, nil
+}
+
 func gen(r *rand.Rand, tier string, n int) []any {
 	var out []any
+	if tier == "thorough" && os.Getenv("VERIF_C16_NORACE") == "" {
+		rr := raceRun(r, 400)
+		out = append(out, input{Kind: "race", Race: &rr})
+	}
 	maxOps := 12
 	if tier == "thorough" {
 		maxOps = 40
